@@ -1225,6 +1225,29 @@ def gen_corpus(tier):
                 yield {"g": "corpus", "cid": cid, "wb": wb, "drop": i, "sheet": "choices"}
 
 
+def gen_langdup(tier):
+    """a translatable column given twice for one language: unsuffixed and suffixed with the default language, next to another
+    language, in every column order, on the survey and the choices sheet: an XForm or the library's error, whichever order"""
+    for col in ("label", "hint", "constraint_message", "image", "guidance_hint"):
+        for dl in ("English (en)", "en", "default"):
+            for perm in itertools.permutations([col, f"{col}::{dl}", f"{col}::French (fr)"]):
+                for sheet, txt in itertools.product(("survey", "choices"), ("neutral", "named")):
+                    if sheet == "choices" and col not in ("label", "image"):
+                        continue
+                    q = {"type": "select_one c", "name": "q1"}
+                    c = {"list_name": "c", "name": "x"}
+                    tgt = q if sheet == "survey" else c
+                    for n_, k in enumerate(perm):
+                        # two sets of texts: neutral ones, and ones that contain the name of the language
+                        tgt[k] = (f"v{n_}.png" if col == "image" else f"v{n_}") if txt == "neutral" else (f"t-{k}.png" if col == "image" else f"t-{k}")
+                    q.setdefault("label", "Q")
+                    c.setdefault("label", "X")
+                    if col == "constraint_message":
+                        q["constraint"] = ". != 'y'"
+                    wb = {"survey": [q], "choices": [c], "settings": [{"default_language": dl}]}
+                    yield {"g": "corpus", "cid": f"langdup:{sheet}:{txt}:{'|'.join(perm)}", "wb": wb, "drop": None}
+
+
 def check_corpus(case):
     wb = case["wb"]
     if case["drop"] is not None:
@@ -1250,7 +1273,7 @@ def check_corpus(case):
     return {"outcome": f"corpus-{out.kind}", "nt": case["drop"] is not None and not viol, "viol": viol, "tr": len(wb["survey"])}
 
 
-SPACE = GenSpace({"corpus": gen_corpus, "formnames": gen_formnames, "seq": gen_seq, "cat": gen_cat, "voc1": gen_voc1, "vocint": gen_vocint, "vocch": gen_vocch, "vocosm": gen_vocosm, "vocsel": gen_vocsel, "voc2": gen_voc2, "voc3": gen_voc3}, chunk=500)
+SPACE = GenSpace({"corpus": gen_corpus, "langdup": gen_langdup, "formnames": gen_formnames, "seq": gen_seq, "cat": gen_cat, "voc1": gen_voc1, "vocint": gen_vocint, "vocch": gen_vocch, "vocosm": gen_vocosm, "vocsel": gen_vocsel, "voc2": gen_voc2, "voc3": gen_voc3}, chunk=500)
 blocks = SPACE.blocks
 expand = SPACE.expand
 
